@@ -262,6 +262,10 @@ class Interp:
                 return True
         return False
 
+    def e_JoinedStr(self, n):
+        # message text: opaque (its characters are never part of a claim)
+        return Fmt("fstring", tuple(self.ev(v.value) for v in n.values if isinstance(v, ast.FormattedValue)))
+
     def e_IfExp(self, n):
         return self.ev(n.body) if self.ctx.branch(self.ev(n.test)) else self.ev(n.orelse)
 
